@@ -1,2 +1,98 @@
-import Pakhi.Model.Interp
-import Pakhi.Model.Parser
+/-
+  C04 — variables are block scoped: declare, shadow, assign, expire.
+
+  Theorems on the scope stack shared by every statement: a declaration binds in the innermost
+  scope and is what a read sees; an assignment updates exactly the innermost scope that binds the
+  name (every other name, and every scope before the binder, is unchanged) and is rejected when no
+  scope binds it; `{` opens an empty scope, `}` discards it, after which every name reads as
+  before the block; an undeclared read is a located runtime error; `নাম x;` holds nil.
+  The lifting of these facts along whole program runs (loop iterations, function bodies) is the
+  control refinement of C02/C03/C05.
+-/
+import Pakhi.Lemmas.Assoc
+namespace Pakhi
+namespace C04
+
+/-- a declaration binds the name in the innermost scope: it is what a read now sees -/
+theorem declare_then_lookup (scopes sc' : List Scope) (n : Str) (v : Val) (h : declareVar scopes n v = .ok sc') :
+    lookupVar sc' n = some v ∧ (∀ n2, n2 ≠ n → lookupVar sc' n2 = lookupVar scopes n2) ∧
+    sc'.length = scopes.length ∧ sc'.drop 1 = scopes.drop 1 := by
+  cases scopes with
+  | nil => simp [declareVar] at h
+  | cons s rest =>
+    simp [declareVar] at h; subst h
+    refine ⟨by simp [lookupVar, assocGet_set_same], ?_, by simp, by simp⟩
+    intro n2 hne
+    simp [lookupVar, assocGet_set_other s n n2 v (Ne.symm hne)]
+
+/-- an assignment updates the innermost visible declaration of the name and nothing else -/
+theorem assign_innermost : ∀ (scopes : List Scope) (n : Str) (v old : Val), lookupVar scopes n = some old →
+    ∃ sc', assignVar scopes n v = some sc' ∧ lookupVar sc' n = some v ∧
+      (∀ n2, n2 ≠ n → lookupVar sc' n2 = lookupVar scopes n2) ∧ sc'.length = scopes.length ∧
+      (∀ k : Nat, (∀ j : Nat, j ≤ k → ∀ s, scopes[j]? = some s → assocGet s n = none) → sc'[k]? = scopes[k]?)
+  | [], n, v, old, h => by simp [lookupVar] at h
+  | s :: rest, n, v, old, h => by
+      cases hs : assocGet s n with
+      | some x =>
+        refine ⟨assocSet s n v :: rest, by simp [assignVar, hs], by simp [lookupVar, assocGet_set_same], ?_, by simp, ?_⟩
+        · intro n2 hne; simp [lookupVar, assocGet_set_other s n n2 v (Ne.symm hne)]
+        · intro k hk
+          have := hk 0 (Nat.zero_le _) s (by simp)
+          simp [hs] at this
+      | none =>
+        have h' : lookupVar rest n = some old := by simpa [lookupVar, hs] using h
+        obtain ⟨sc', h1, h2, h3, h4, h5⟩ := assign_innermost rest n v old h'
+        refine ⟨s :: sc', by simp [assignVar, hs, h1], by simp [lookupVar, hs, h2], ?_, by simp [h4], ?_⟩
+        · intro n2 hne; simp [lookupVar, h3 n2 hne]
+        · intro k hk
+          cases k with
+          | zero => simp
+          | succ k =>
+            simp
+            apply h5 k
+            intro j hj s' hs'
+            exact hk (j+1) (by omega) s' (by simpa using hs')
+
+/-- assigning a name with no visible declaration is rejected -/
+theorem assign_undeclared : ∀ (scopes : List Scope) (n : Str) (v : Val), lookupVar scopes n = none → assignVar scopes n v = none
+  | [], _, _, _ => by simp [assignVar]
+  | s :: rest, n, v, h => by
+      cases hs : assocGet s n with
+      | some x => simp [lookupVar, hs] at h
+      | none =>
+        have : lookupVar rest n = none := by simpa [lookupVar, hs] using h
+        simp [assignVar, hs, assign_undeclared rest n v this]
+
+/-- a block's declarations shadow for exactly the extent of the block: after the block's scope is
+    popped every name reads as before the block -/
+theorem block_scope_expires (scopes : List Scope) (inner : Scope) (n : Str) :
+    lookupVar ((inner :: scopes).drop 1) n = lookupVar scopes n := by simp
+
+/-- inside the block the innermost declaration wins -/
+theorem shadow_innermost (scopes : List Scope) (inner : Scope) (n : Str) (v : Val) (h : assocGet inner n = some v) :
+    lookupVar (inner :: scopes) n = some v := by simp [lookupVar, h]
+
+/-- `{` opens an empty scope and `}` discards the innermost one -/
+theorem exec_block_delimiters (prog : List Stmt) (f : Nat) (rest : List Stmt) (s : St) (m : Meta) :
+    exec prog (f+1) (.blockStart m :: rest) s = .ok (rest, { s with scopes := [] :: s.scopes }) ∧
+    (2 ≤ s.scopes.length → exec prog (f+1) (.blockEnd m :: rest) s = .ok (rest, { s with scopes := s.scopes.drop 1 })) := by
+  constructor
+  · simp [exec]
+  · intro h
+    have : ¬ s.scopes.length ≤ 1 := by omega
+    simp [exec, this]
+
+/-- reading a name with no visible declaration is a runtime error located at the current statement -/
+theorem read_undeclared (prog : List Stmt) (f : Nat) (st : Stmt) (rest : List Stmt) (tok : Token) (m : Meta) (s : St)
+    (h : lookupVar s.scopes tok.lexeme = none) :
+    ∃ e, eval prog (f+1) (st :: rest) (.var tok m) s = .err e ∧ e.cls = .runtime ∧ e.line = st.meta.line ∧ e.file = st.meta.file := by
+  simp [eval, h, stmtErr, mkErr, Res.tagOut]
+
+/-- `নাম x;` declares `x` in the innermost scope, holding nil -/
+theorem decl_without_init (prog : List Stmt) (f : Nat) (cur : List Stmt) (v : Token) (s : St) (sc : Scope) (r : List Scope)
+    (h : s.scopes = sc :: r) :
+    execAssign prog (f+1) cur { kind := .first, var := v, indexes := [], init := none } s =
+      .ok { s with scopes := assocSet sc v.lexeme .nil :: r } := by
+  simp [execAssign, h, declareVar]
+end C04
+end Pakhi
